@@ -76,11 +76,11 @@ func (s *Scripted) Kill(ctx context.Context) error {
 	s.Exit()
 	return nil
 }
-func (s *Scripted) KillCount() int               { return int(atomic.LoadInt32(&s.Kills)) }
-func (s *Scripted) Stdout() io.ReadCloser        { return s.stdoutR }
-func (s *Scripted) Stderr() io.ReadCloser        { return s.stderrR }
-func (s *Scripted) Name() string                 { return "scripted-plugin" }
-func (s *Scripted) ID() string                   { return "scripted-1" }
+func (s *Scripted) KillCount() int                  { return int(atomic.LoadInt32(&s.Kills)) }
+func (s *Scripted) Stdout() io.ReadCloser           { return s.stdoutR }
+func (s *Scripted) Stderr() io.ReadCloser           { return s.stderrR }
+func (s *Scripted) Name() string                    { return "scripted-plugin" }
+func (s *Scripted) ID() string                      { return "scripted-1" }
 func (s *Scripted) Diagnose(context.Context) string { return "" }
 func (s *Scripted) PluginToHost(n, a string) (string, string, error) {
 	if s.Translate != nil {
